@@ -801,6 +801,8 @@ func (g *generator) enterNextFinallyFrame() (canContinue bool) {
 			vm.throw(ex)
 			return true
 		}
+		// restoreStacks() closes iterators, i.e. runs script code that may grow (reallocate) the try stack
+		tf = &vm.tryStack[len(vm.tryStack)-1]
 		if tf.finallyPos >= 0 {
 			vm.sp = int(tf.sp)
 			vm.stash = tf.stash
